@@ -38,7 +38,7 @@ Theorem C18_atomic_code_is_model : forall c o, gen_astep c o = Some (astep c o).
 Proof. exact AtomicReloadId_tie. Qed.
 
 Theorem C18_one_atomic_access_per_method :
-  map (fun '(_, g) => atomic_calls_of g) (tl fns)
+  map (fun '(_, g) => atomic_calls_of g) (tl (tl fns))
   = [["fetch_max"]; ["fetch_max"]; ["fetch_add"]; ["load"]; ["store"]; ["swap"]]%string.
 Proof. exact one_atomic_access_each. Qed.
 
